@@ -42,7 +42,7 @@ class Check(CheckBase):
         for i in range(n):
             r = random.Random(f'C11/{self.seed}/{i}')
             mx = [64, 128, 256][i % 3]
-            mn = r.choice([1, 4, mx // 16, mx // 32 or 1])
+            mn = r.choice([1, 4, mx // 16, mx // 32 or 1, 3, 5, 7, mx // 16 - 1, mx // 16 - 3])
             cases.append({'kind': 'streams', 'min': mn, 'max': mx, 'seed': r.randrange(1 << 30),
                           'pairs': 16})
         for i in range(6 if quick else 40):
@@ -61,14 +61,38 @@ class Check(CheckBase):
         unmet = []
         if c.get('pairs', 0) < (500 if self.tier == 'quick' else 5000):
             unmet.append(f'pairs checked {c.get("pairs", 0)} below floor')
-        for k in ('suffix_pairs', 'edit_pairs', 'key_pairs', 'repo_pairs'):
+        for k in ('suffix_pairs', 'edit_pairs', 'key_pairs', 'repo_pairs', 'segmented_streams', 'grid_checked_streams'):
             if c.get(k, 0) == 0:
                 unmet.append(f'{k} = 0')
         return unmet
 
-    def _bounds(self, mn, mx, data, key):
+    def _bounds(self, mn, mx, data, key, pieces=None):
         ch = self.adapters.gclmulchunker(min_length=mn, max_length=mx)
-        return boundaries(list(ch(iter([data]), params=key)))
+        out = boundaries(list(ch(iter(pieces if pieces is not None else [data]), params=key)))
+        self._grid_calls += 1
+        # candidate grid: outside the tail zone every boundary is a multiple of the alignment, otherwise equal
+        # data behind different (aligned) predecessors would be examined at different offsets
+        off = [b for b in out if b <= len(data) - 2 * mx and b % 4]
+        if off:
+            self._grid_violations.append({'first_unaligned_boundary': off[0], 'count': len(off), 'min': mn, 'max': mx})
+        return out
+
+    @staticmethod
+    def _pieces(r, parts, mx):
+        """Hand a stream over the way Repository does: part by part (files, paddings), each part possibly in
+        several reads, with empty pieces in between."""
+        out = []
+        for part in parts:
+            if r.random() < 0.3:
+                out.append(b'')
+            if len(part) > 4 * mx and r.random() < 0.7:
+                cut = r.randrange(len(part))
+                out += [part[:cut], b'', part[cut:]] if r.random() < 0.5 else [part[:cut], part[cut:]]
+            else:
+                out.append(part)
+        if r.random() < 0.3:
+            out.append(b'')
+        return out
 
     def run_case(self, case):
         return self._streams(case) if case['kind'] == 'streams' else self._repo(case)
@@ -103,6 +127,7 @@ class Check(CheckBase):
         if key[:8] == bytes(8):
             key = b'\x01' + key[1:]
         slen = r.randrange(35_000, 75_000) * 4
+        self._grid_violations, self._grid_calls = [], 0
         for pi in range(case['pairs']):
             S = r.randbytes(slen)
             mode = pi % 4
@@ -110,7 +135,11 @@ class Check(CheckBase):
             if mode == 0:                                   # shared suffix, different prefixes
                 l1, l2 = r.choice([0, 4, 8, mx, 3 * mx - 4]) // 4 * 4, r.randrange(0, 3 * mx) // 4 * 4
                 P1, P2 = r.randbytes(l1), r.randbytes(l2)
-                b1, b2 = self._bounds(mn, mx, P1 + S, key), self._bounds(mn, mx, P2 + S, key)
+                seg = pi % 8 >= 4
+                b1 = self._bounds(mn, mx, P1 + S, key, self._pieces(r, [P1, S], mx) if seg else None)
+                b2 = self._bounds(mn, mx, P2 + S, key, self._pieces(r, [P2, S], mx) if seg else None)
+                if seg:
+                    counters['segmented_streams'] = counters.get('segmented_streams', 0) + 2
                 common, mism = self._compare_from_common(b1, l1, b2, l2, slen, mx)
                 counters['suffix_pairs'] += 1
                 classes.add(f'suffix|{mx}|p{min(l1, 1)}{min(l2, 1)}')
@@ -156,17 +185,35 @@ class Check(CheckBase):
                 if head1 != head2:
                     violations.append({'what': 'boundaries before the edit changed', 'mechanism': None,
                                        'witness': dict(ident, edit=(ek, pos, elen))})
-            else:                                            # independent keys
-                k2 = r.randbytes(16)
+            else:                                            # different keys
+                # independent keys; keys that differ only in the multiplier half (one byte of k0); keys that
+                # differ only in the most significant byte of the mask half.  (Low mask bytes do not influence the
+                # order of hash values on the pinned code either and are not generated - stated limit.)
+                kmode = ['independent', 'k0-byte', 'mask-top-byte'][(pi // 4) % 3]
+                if kmode == 'independent':
+                    k2 = r.randbytes(16)
+                else:
+                    k2 = bytearray(key)
+                    pos = r.randrange(8) if kmode == 'k0-byte' else 15
+                    k2[pos] ^= 1 << r.randrange(8)
+                    k2 = bytes(k2)
+                    if k2[:8] == bytes(8):
+                        k2 = r.randbytes(16)
                 b1, b2 = self._bounds(mn, mx, S, key), self._bounds(mn, mx, S, k2)
                 counters['key_pairs'] += 1
-                classes.add(f'keys|{mx}')
+                classes.add(f'keys|{mx}|{kmode}')
                 if b1 == b2:
-                    violations.append({'what': 'two independent chunker keys produce identical boundaries on random data',
+                    violations.append({'what': f'two different chunker keys ({kmode}) produce identical boundaries on random data',
                                        'mechanism': None, 'witness': dict(ident, key2=k2.hex(), nbounds=len(b1))})
             counters['pairs'] += 1
             if len(violations) > 3:
                 break
+        counters['grid_checked_streams'] = self._grid_calls
+        if self._grid_violations:
+            violations.append({'what': 'a boundary outside the tail zone is not a multiple of the alignment: equal data behind '
+                                       'different aligned predecessors is examined on different candidate grids',
+                               'mechanism': None, 'witness': dict(self._grid_violations[0], key=key.hex(), seed=case['seed'])})
+        classes.add(f'min%4={mn % 4}|{mx}')
         return {'verdict': 'violated' if violations else 'held', 'classes': sorted(classes), 'counters': counters,
                 'violations': violations[:3]}
 
